@@ -708,6 +708,61 @@ theorem default_drivers_bounded (s : St) (obs : Nat → Obs) :
     simp only [mpcForward, icpForward] at h hc ⊢
     omega
 
+/-! ## pass 7: the property-words characterisation for tensors of every (constant) shape -/
+
+/-- **Run-level bridge between the two numeric models.** For finite losses that are tensors of one shape `sh` (any
+shape) the shape-aware IEEE model never raises and its controller state after every number of steps is the state of
+the flat model on the flattened data; `last` is the last loss (the 0-dim `inf` before the first step). -/
+theorem rtbRunX_finite_eq_rtbRunNum (c : Cfg) (d tol : ℝ) (sh : Batch.Shape) (loss : Nat → List ℝ)
+    (hlen : ∀ i, (loss i).length = Batch.numel sh) (n : Nat) :
+    rtbRunX c (XF.num d) (XF.num tol) RtbStX.init (fun i => ⟨sh, (loss i).map XF.num⟩) n
+      = some ⟨(rtbRunNum c d tol RtbSt.init loss n).st, lastOf (fun i => ⟨sh, (loss i).map XF.num⟩) n⟩ := by
+  induction n with
+  | zero => rfl
+  | succ n ih =>
+    simp only [rtbRunX, ih, Option.bind_some, rtbStepX]
+    have hobs : rtbObsX (XF.num d) (XF.num tol) (lastOf (fun i => (⟨sh, (loss i).map XF.num⟩ : TX ℝ)) n)
+        ⟨sh, (loss n).map XF.num⟩ = some (rtbObs d tol (rtbRunNum c d tol RtbSt.init loss n).last (loss n)) := by
+      cases n with
+      | zero =>
+        exact (ext_step_agrees_on_finite c d tol St.init sh (loss 0) (loss 0) (hlen 0) (hlen 0)).2.1
+      | succ m =>
+        rw [rtbRunNum_last]
+        exact (ext_step_agrees_on_finite c d tol St.init sh (loss m) (loss (m+1)) (hlen m) (hlen (m+1))).1
+    simp only [hobs, Option.map_some]
+    rfl
+
+/-- **ReduceToBason on real-valued tensors of any shape, causes in the property's own words.** For every shape `sh`,
+every history of finite real tensors of that shape (any signs, zeros), every `steps`, `patience`, `decreasing`, `tol`
+and every length `n`: the step never raises, and `continual()` after `n` steps is true iff at no step `i < n` the
+budget was reached, or at least `patience` consecutive steps up to `i` each failed to decrease (`failsAtR`, element by
+element in row-major order), or all elements were below `tol` — evaluated through the IEEE formula of the code
+(`rtbRunX`: `(last - loss)/loss < d` with `inf` after reset and `x/0 = ±inf`), not through a hard-wired case split. -/
+theorem tensor_continual_iff_real (c : Cfg) (d tol : ℝ) (sh : Batch.Shape) (loss : Nat → List ℝ)
+    (hlen : ∀ i, (loss i).length = Batch.numel sh) (n : Nat) :
+    ∃ s, rtbRunX c (XF.num d) (XF.num tol) RtbStX.init (fun i => ⟨sh, (loss i).map XF.num⟩) n = some s ∧
+      (s.st.cont = true ↔
+        ∀ i, i < n → ¬ (budgetCause c i ∨
+          (∃ m : Nat, c.patience ≤ (m : Int) ∧ m ≤ i + 1 ∧ ∀ j, i + 1 - m ≤ j → j ≤ i → failsAtR d loss j) ∨
+          (∀ x ∈ loss i, x < tol))) :=
+  ⟨_, rtbRunX_finite_eq_rtbRunNum c d tol sh loss hlen n,
+   rtbNum_continual_iff_real c d tol loss (Batch.numel sh) hlen n⟩
+
+/-- **StopOnPlateau over histories with special values** (NaN / ±inf / -0.0 readings, any thresholds): the scheduler
+after `n` steps of `sopStepX` is the abstract run on the observations `sopObsX` computes, hence `continual()` is true
+iff no documented cause occurred — where a NaN reading never counts as a non-decrease (`sop_ext_agrees_and_nan`). -/
+theorem sopX_continual_iff (c : Cfg) (d : XF ℝ) (last loss : Nat → XF ℝ) (rc : Nat → Option Nat) (n : Nat) :
+    (runG (fun s (i : Nat) => sopStepX c d s (last i) (loss i) (rc i)) St.init (fun i => i) n)
+      = run (sopStep c) St.init (fun i => sopObsX d (last i) (loss i) (rc i)) n ∧
+    ((runG (fun s (i : Nat) => sopStepX c d s (last i) (loss i) (rc i)) St.init (fun i => i) n).cont = true ↔
+      ∀ i, i < n → ¬ sopCause c (fun i => sopObsX d (last i) (loss i) (rc i)) i) := by
+  have h : runG (fun s (i : Nat) => sopStepX c d s (last i) (loss i) (rc i)) St.init (fun i => i) n
+      = run (sopStep c) St.init (fun i => sopObsX d (last i) (loss i) (rc i)) n := by
+    induction n with
+    | zero => rfl
+    | succ n ih => simp only [runG, run]; rw [ih]; rfl
+  exact ⟨h, by rw [h]; exact sop_continual_iff c _ n⟩
+
 /-! ## what the driver executes is the model the theorems are about -/
 
 /-- the executable trace on a list is the sequence of `run` states -/
@@ -763,5 +818,8 @@ example : ([XF.num 1, XF.nan, XF.pinf, XF.nzero, XF.num 2, XF.num 3] : List (XF 
 example : ∃ s, rtbRunX (α := ℝ) ⟨9, 2⟩ (XF.num (1/2)) (XF.num 1) RtbStX.init (fun i => ⟨[2], [XF.num (4 - i), XF.nan]⟩) 5 = some s :=
   (constant_shape_never_raises ⟨9, 2⟩ _ _ _ [2] (fun _ => rfl) 5).imp fun _ h => h.1
 example : Batch.broadcastShapes [3, 1] [1, 3] = some [3, 3] ∧ Batch.broadcastShapes [3] [2] = none := by decide
+
+-- pass 7: a non-trivial instance of `tensor_continual_iff_real` (shape [2,3], mixed signs and a zero)
+example : ∀ i : Nat, ([1 / ((i : ℝ) + 1), -2, 0, 3, 4, 5] : List ℝ).length = Batch.numel [2, 3] := fun _ => rfl
 
 end PP.Stop
